@@ -15,6 +15,15 @@ Ltac perm :=
             | apply (@Permutation_cons_app _ l [_; _; _] _ a) ]; cbn [app]; perm
   end.
 
+Lemma NoDup_app_intro' {A} (l1 l2 : list A) :
+  NoDup l1 -> NoDup l2 -> (forall x, In x l1 -> In x l2 -> False) -> NoDup (l1 ++ l2).
+Proof.
+  induction l1 as [|a t IH]; simpl; intros N1 N2 D; [assumption|].
+  inversion N1 as [|? ? Na Nt]; subst. constructor.
+  - intros I. apply in_app_or in I. destruct I as [I|I]; [contradiction|]. apply (D a); [now left|assumption].
+  - apply IH; try assumption. intros x X1 X2. apply (D x); [now right|assumption].
+Qed.
+
 (* ------------------------------------------------------------------ dedup_by *)
 Lemma seen_In k seen : existsb (leqb k) seen = true <-> In k seen.
 Proof.
@@ -106,28 +115,34 @@ Proof.
 Qed.
 
 (* ------------------------------------------------------------------ faces *)
-Theorem complete_faces_wf cells :
-  Forall cell_ok cells -> faces_wf cells (complete_faces [] cells).
+(* declared faces: pairwise distinct triangles *)
+Definition faces0_ok (faces0 : list (list nat)) : Prop := NoDup (map key faces0) /\ Forall face_ok faces0.
+
+Theorem complete_faces_wf faces0 cells :
+  Forall cell_ok cells -> faces0_ok faces0 -> faces_wf cells (complete_faces faces0 cells).
 Proof.
-  intros HC. unfold complete_faces. cbn [map app]. constructor.
-  - apply dedup_NoDup.
-  - apply Forall_forall. intros F HF. apply dedup_incl in HF. apply in_flat_map in HF.
+  intros HC [N0 S0]. unfold complete_faces. constructor.
+  - rewrite map_app. apply NoDup_app_intro'; [assumption | apply dedup_NoDup |].
+    intros k H1 H2. apply in_map_iff in H2. destruct H2 as [F [<- HF]]. apply dedup_fresh in HF. contradiction.
+  - apply Forall_app. split; [assumption|].
+    apply Forall_forall. intros F HF. apply dedup_incl in HF. apply in_flat_map in HF.
     destruct HF as [C [HCin HF]]. pose proof (proj1 (Forall_forall _ _) HC C HCin) as OK.
     destruct (tet_faces_in C F OK HF) as [i [Hi P]]. destruct OK as [L N]. split.
     + rewrite (Permutation_length P). pose proof (rm_length i C). lia.
     + apply (Permutation_NoDup (Permutation_sym P)). now apply rm_NoDup.
   - intros C i HCin Hi. pose proof (proj1 (Forall_forall _ _) HC C HCin) as OK.
     destruct (tet_faces_nth C i OK Hi) as [I P].
-    rewrite <- (key_of_perm _ _ P).
-    destruct (dedup_covers key [] (flat_map tet_faces cells) (nth i (tet_faces C) [])) as [[]|H]; [|exact H].
-    apply in_flat_map. now exists C.
+    rewrite <- (key_of_perm _ _ P). rewrite map_app. apply in_or_app.
+    destruct (dedup_covers key (map key faces0) (flat_map tet_faces cells) (nth i (tet_faces C) [])) as [H|H];
+      [apply in_flat_map; now exists C | now left | now right].
 Qed.
 
-(* every completed face is a convention-order face of some cell (the first one that has it) *)
-Theorem complete_faces_origin cells F :
-  In F (complete_faces [] cells) -> exists C, In C cells /\ In F (tet_faces C).
+(* every face is a declared one or a convention-order face of some cell (the first one that has it) *)
+Theorem complete_faces_origin faces0 cells F :
+  In F (complete_faces faces0 cells) -> In F faces0 \/ exists C, In C cells /\ In F (tet_faces C).
 Proof.
-  unfold complete_faces. cbn [map app]. intros H. apply dedup_incl in H. now apply in_flat_map in H.
+  unfold complete_faces. intros H. apply in_app_or in H. destruct H as [H|H]; [now left|right].
+  apply dedup_incl in H. now apply in_flat_map in H.
 Qed.
 
 (* ------------------------------------------------------------------ edges *)
@@ -159,34 +174,48 @@ Proof.
   apply key_of_perm. apply side_perm. lia.
 Qed.
 
-(* every completed edge is a sorted side of some face *)
-Lemma complete_edges_origin faces E :
-  Forall face_ok faces -> In E (complete_edges [] faces) -> exists F i, In F faces /\ i < 3 /\ E = key (rm i F).
+(* declared edges: pairwise distinct pairs of distinct vertices *)
+Definition edges0_ok (edges0 : list (list nat)) : Prop := NoDup (map key edges0) /\ Forall edge_ok edges0.
+
+(* every edge is a declared one (sorted) or a sorted side of some face *)
+Lemma complete_edges_origin edges0 faces E :
+  Forall face_ok faces -> In E (complete_edges edges0 faces) ->
+  In E (map key edges0) \/ exists F i, In F faces /\ i < 3 /\ E = key (rm i F).
 Proof.
-  intros HF HE. unfold complete_edges in HE. cbn [map app] in HE.
+  intros HF HE. unfold complete_edges in HE. apply in_app_or in HE. destruct HE as [HE|HE]; [now left|right].
   apply dedup_incl in HE. apply in_flat_map in HE. destruct HE as [F [HFin HE]].
   destruct (face_sides_in F E (proj1 (Forall_forall _ _) HF F HFin) HE) as [i [Hi ->]]. now exists F, i.
 Qed.
 
-Theorem complete_edges_wf faces :
-  Forall face_ok faces -> edges_wf faces (complete_edges [] faces).
+Theorem complete_edges_wf edges0 faces :
+  Forall face_ok faces -> edges0_ok edges0 -> edges_wf faces (complete_edges edges0 faces).
 Proof.
-  intros HF. unfold complete_edges. cbn [map app].
-  assert (SH : forall E, In E (dedup_by (fun e => e) [] (flat_map face_sides faces)) ->
-                         exists F i, In F faces /\ i < 3 /\ E = key (rm i F)).
+  intros HF [N0 S0]. unfold complete_edges.
+  set (D := dedup_by (fun e => e) (map key edges0) (flat_map face_sides faces)).
+  assert (SH : forall E, In E D -> exists F i, In F faces /\ i < 3 /\ E = key (rm i F)).
   { intros E HE. apply dedup_incl in HE. apply in_flat_map in HE. destruct HE as [F [HFin HE]].
     destruct (face_sides_in F E (proj1 (Forall_forall _ _) HF F HFin) HE) as [i [Hi ->]]. now exists F, i. }
+  assert (KD : map key D = D).
+  { rewrite <- (map_id D) at 2. apply map_ext_in. intros E HE. destruct (SH E HE) as [F [i [_ [_ ->]]]]. apply key_idem. }
+  assert (KK : map key (map key edges0) = map key edges0).
+  { rewrite map_map. apply map_ext. intros E. apply key_idem. }
   constructor.
-  - assert (EQ : map key (dedup_by (fun e => e) [] (flat_map face_sides faces))
-                 = map (fun e => e) (dedup_by (fun e => e) [] (flat_map face_sides faces))).
-    { apply map_ext_in. intros E HE. destruct (SH E HE) as [F [i [_ [_ ->]]]]. apply key_idem. }
-    rewrite EQ. apply dedup_NoDup.
-  - apply Forall_forall. intros E HE. destruct (SH E HE) as [F [i [HFin [Hi ->]]]].
-    pose proof (proj1 (Forall_forall _ _) HF F HFin) as [L N]. split.
-    + rewrite <- (Permutation_length (key_perm _)). pose proof (rm_length i F). lia.
-    + apply (Permutation_NoDup (key_perm _)). now apply rm_NoDup.
+  - rewrite map_app, KK, KD. apply NoDup_app_intro'; [assumption | |].
+    + rewrite <- (map_id D). apply dedup_NoDup.
+    + intros k H1 H2. apply dedup_fresh in H2. contradiction.
+  - apply Forall_app. split.
+    + apply Forall_forall. intros E HE. apply in_map_iff in HE. destruct HE as [E0 [<- HE0]].
+      pose proof (proj1 (Forall_forall _ _) S0 E0 HE0) as [L N]. split.
+      * now rewrite <- (Permutation_length (key_perm E0)).
+      * now apply (Permutation_NoDup (key_perm E0)).
+    + apply Forall_forall. intros E HE. destruct (SH E HE) as [F [i [HFin [Hi ->]]]].
+      pose proof (proj1 (Forall_forall _ _) HF F HFin) as [L N]. split.
+      * rewrite <- (Permutation_length (key_perm _)). pose proof (rm_length i F). lia.
+      * apply (Permutation_NoDup (key_perm _)). now apply rm_NoDup.
   - intros F i HFin Hi. pose proof (proj1 (Forall_forall _ _) HF F HFin) as OK.
-    destruct (dedup_covers (fun e => e) [] (flat_map face_sides faces) (key (rm i F))) as [[]|H].
+    rewrite map_app, KK, KD. apply in_or_app.
+    destruct (dedup_covers (fun e => e) (map key edges0) (flat_map face_sides faces) (key (rm i F))) as [H|H].
     + apply in_flat_map. exists F. split; [assumption|]. now apply face_sides_nth.
-    + rewrite map_id in H. apply in_map_iff. exists (key (rm i F)). split; [apply key_idem|assumption].
+    + now left.
+    + right. fold D in H. now rewrite map_id in H.
 Qed.
